@@ -720,7 +720,7 @@ def main():
                           lambda c, a: pool_monitor(c, full_pool.get(c, a)))
             chk.cov["pool_size_cases"] = len(pcs)
             chk.cov["pool_size_values"] = sorted(set(repr(pool_value_of(c.split()[0])) for c in pcs))[:60]
-            chk.sample({"pool_case": pcs[6], "impl": po[6][:200]})
+            chk.sample({"pool_case": pcs[min(6, len(pcs) - 1)], "impl": po[min(6, len(po) - 1)][:200]})
 
     chk.finish(
         level="proof",
@@ -731,7 +731,7 @@ def main():
              "descriptor slots), four routes on fresh trees; model compared on route taken, SQE fields and live uv__malloc "
              "blocks at four points; monitor compares results, outputs, callback counts, trees against the POSIX mirror. "
              "pool: one child process per (UV_THREADPOOL_SIZE value, operation): unset, \"0\", \"\", \"00\", \"+0\", text, "
-             "negative, 1, 2, 4, 1024, 1025, beyond int/long and random strings; watchdog 4 s; worker threads counted in "
+             "negative, 1, 2, 4, 1024, 1025, beyond int/long and random strings; watchdog 3 s; worker threads counted in "
              "/proc/self/task and compared with pool_size; pool result compared with the sync result. "
              "A case is non-trivial when its (case, implementation line) pair is distinct.",
         trusted=["Coq 8.16.1 kernel (coqc)", "ExtrOcamlBasic extraction + OCaml 4.13.1 + ocaml/zutil.ml, ocaml/drv_c11.ml",
